@@ -17,7 +17,7 @@ import json, os, re, subprocess, sys
 from harness.drive import f2b
 
 ID = "C13"
-THEOREM_MODULES = ["JF.Props.C13"]
+THEOREM_MODULES = ["JF.Props.C13", "JF.Props.C13Refine"]
 COMPONENTS = ["store"]
 ASSUMPTIONS = ["identifiers are tuples of non-negative integers; trees have one or two levels "
                "(setting.number_of_node_levels in {1,2}); a client mutates branches only through the operations "
